@@ -483,6 +483,98 @@ def gen_thread(rng, i, shared_names: bool, runner=None, gate=False):
     return {"runner": runner or rng.choice(["C", "C", "I"]), "expr": e, "binds": binds}
 
 
+# ---- (4) step-ordered scenarios: create environment / compile / program / evaluate as separately ordered steps --------
+
+def steps_templates(rng):
+    """per-thread op lists (c05 history format, indices local to the thread).  Each thread: E, P, G, V, V."""
+    out = []
+    kA, kB = rng.choice("CCI"), rng.choice("CCI")
+    n = rng.choice(["limit", "cfg", "a"])
+    f = rng.choice(["max", "b", "size"])
+    # different annotations with a colliding dotted name
+    out.append(("annotations",
+                [[["E", kA, None, [[f"{n}.{f}", "IntType"]]], ["P", 0, {"src": f"{n}.{f} > 5"}], ["G", 0, 0],
+                  ["V", 0, [[f"{n}.{f}", ["i", 10]]]], ["V", 0, [[f"{n}.{f}", ["i", 10]]]]],
+                 [["E", kB, None, []], ["P", 0, {"src": f"{n}.{f} + 1"}], ["G", 0, 0],
+                  ["V", 0, [[n, ["m", [[f, 3]]]]]], ["V", 0, [[n, ["m", [[f, 3]]]]]]]]))
+    # mixed runner classes, environments created at different moments
+    kinds = rng.choice([["C", "I"], ["I", "C"], ["C", "I", "C"], ["I", "C", "I"]])
+    ths = []
+    for i, k in enumerate(kinds):
+        x = rng.choice(["x + 1 == 3 || false", "x > 1 && x < 5", "x + 1", "[1, 2].map(i, i + x)"])
+        ths.append([["E", k, None, []], ["P", 0, {"src": x}], ["G", 0, 0], ["V", 0, [["x", ["i", 2]]]], ["V", 0, [["x", ["i", 3 + i]]]]])
+    out.append(("mixed-kinds", ths))
+    # host functions passed as a LIST, same name, different behaviour per thread
+    form = rng.choice(["list", "list", "dict"])
+    k = rng.choice("CCI")
+    out.append(("functions-" + form,
+                [[["E", k, None, []], ["P", 0, {"src": "score(x) + 1"}], ["G", 0, 0, {"form": form, "fns": [["score", "plus", 1]]}],
+                  ["V", 0, [["x", ["i", 1]]]], ["V", 0, [["x", ["i", 1]]]]],
+                 [["E", rng.choice("CCI"), None, []], ["P", 0, {"src": "score(x) + 1"}],
+                  ["G", 0, 0, {"form": form, "fns": [["score", rng.choice(["plus", "const"]), 100]]}],
+                  ["V", 0, [["x", ["i", 1]]]], ["V", 0, [["x", ["i", 1]]]]]]))
+    # one thread uses a built-in, the other overrides it
+    out.append(("builtin-override",
+                [[["E", rng.choice("CCI"), None, []], ["P", 0, {"src": "size(s) + s.size()"}], ["G", 0, 0],
+                  ["V", 0, [["s", ["s", "h\u00e9llo"]]]], ["V", 0, [["s", ["s", "ab"]]]]],
+                 [["E", "C", None, []], ["P", 0, {"src": "size(s) + s.size()"}],
+                  ["G", 0, 0, {"form": rng.choice(["dict", "list"]), "fns": [["size", rng.choice(["bytes", "const"]), 7]]}],
+                  ["V", 0, [["s", ["s", "h\u00e9llo"]]]], ["V", 0, [["s", ["s", "ab"]]]]]]))
+    # dotted declarations / bindings over the same names in both threads (C05's leak shapes, across threads)
+    out.append(("dotted",
+                [[["E", "C", None, [["a.b", "IntType"], ["x", "IntType"]]], ["P", 0, {"src": "a.b + x"}], ["G", 0, 0],
+                  ["V", 0, [["a.b", ["i", 1]], ["x", ["i", 10]]]], ["V", 0, [["x", ["i", 10]]]]],
+                 [["E", rng.choice("CI"), rng.choice([None, "a"]), []], ["P", 0, {"src": "a.b + x"}], ["G", 0, 0],
+                  ["V", 0, [["a.b", ["i", 5]], ["x", ["i", 1]]]], ["V", 0, [["x", ["i", 1]]]]]]))
+    return out
+
+
+def step_orders(rng, lens: List[int], how_many: int):
+    """global orders of the steps: structured ones (one after the other, the other way round, each thread's last step held
+    back until every other thread is done, strict alternation, environments first) and a seeded sample of the rest"""
+    n = len(lens)
+    full = [[t] * lens[t] for t in range(n)]
+    orders = []
+    orders.append([t for b in full for t in b])
+    orders.append([t for b in reversed(full) for t in b])
+    for t in range(n):                      # t runs all but its last step, the others run completely, t finishes
+        o = [t] * (lens[t] - 1)
+        for u in range(n):
+            if u != t:
+                o += [u] * lens[u]
+        orders.append(o + [t])
+    for t in range(n):                      # t builds its environment only; the others run completely; t continues
+        o = [t]
+        for u in range(n):
+            if u != t:
+                o += [u] * lens[u]
+        orders.append(o + [t] * (lens[t] - 1))
+    alt, pos = [], [0] * n
+    while any(pos[t] < lens[t] for t in range(n)):
+        for t in range(n):
+            if pos[t] < lens[t]:
+                alt.append(t)
+                pos[t] += 1
+    orders.append(alt)
+    orders.append([t for t in range(n)] + [t for t in range(n) for _ in range(lens[t] - 1)])   # all environments first
+    uniq, seen = [], set()
+    for o in orders:
+        if tuple(o) not in seen:
+            seen.add(tuple(o))
+            uniq.append(o)
+    orders = uniq
+    base = [t for t in range(n) for _ in range(lens[t])]
+    tries = 0
+    while len(orders) < how_many and tries < 10 * how_many:
+        tries += 1
+        o = list(base)
+        rng.shuffle(o)
+        if tuple(o) not in seen:
+            seen.add(tuple(o))
+            orders.append(o)
+    return orders[:max(how_many, 1)]
+
+
 D4_WITNESS = [{"runner": "C", "expr": ["and", ["gate", ["lit", True]], ["eq", "x", 1]], "binds": [["x", 1]]},
               {"runner": "C", "expr": ["and", ["lit", False], ["eq", "y", 2]], "binds": [["y", 2]]}]
 
@@ -512,11 +604,16 @@ class C16(Prop):
     rule = ("scenarios of 2-3 threads, each with its own Environment/program/bindings (both runner classes; overlapping and disjoint variable "
             "names; && || ! ?: over comparisons; optional host-function gate): (1) deterministic gate replay, (2) explorer over all "
             "single-preemption schedules + a seeded sample of double preemptions at line granularity, (3) free-running stress "
-            "(4 threads, switch interval 1e-6); every outcome compared with the solo outcome; non-trivial = scenario with at least one "
-            "compiled thread whose program defines ex_N names")
+            "(4 threads, switch interval 1e-6); every outcome compared with the solo outcome; (4) step-ordered scenarios: each thread's "
+            "create-environment / compile / program / evaluate / evaluate are separately ordered steps (different annotations with colliding "
+            "dotted names, mixed runner classes, host functions as list/dict with the same name, built-in overrides, dotted bindings), run "
+            "in a pristine process per order (structured orders + seeded sample), every step compared with the thread alone in a fresh "
+            "process; non-trivial = scenario with at least one compiled thread whose program defines ex_N names, or a step order that "
+            "really interleaves")
 
     def __init__(self):
         self._cache: Dict[str, Any] = {}
+        self._alone: Dict[str, Any] = {}
         self._tier = "quick"
 
     def generate(self, rng, tier):
@@ -529,7 +626,7 @@ class C16(Prop):
             ths = [gen_thread(rng, 0, shared, "C" if rng.random() < 0.8 else "I", gate=True)] + \
                   [gen_thread(rng, i, shared) for i in range(1, rng.choice([2, 2, 3]))]
             cases.append({"kind": "gate", "threads": ths})
-        for _ in range(5 if quick else 60):
+        for _ in range(5 if quick else 40):
             shared = rng.random() < 0.6
             n = 2 if rng.random() < 0.75 else 3
             ths = [gen_thread(rng, i, shared) for i in range(n)]
@@ -540,12 +637,47 @@ class C16(Prop):
         for _ in range(1 if quick else 6):
             ths = [gen_thread(rng, i, True) for i in range(4)]
             cases.append({"kind": "stress", "threads": ths, "reps": 300 if quick else 2000})
-        return cases
+        steps = []
+        for rep in range(1 if quick else 6):
+            for name, ths in steps_templates(rng):
+                for o in step_orders(rng, [len(t) for t in ths], 9 if quick else 40):
+                    steps.append({"kind": "steps", "family": name, "threads": ths, "order": o})
+        from ..core import corpus_cases
+        self.prefetch_steps([c for c in corpus_cases(self.pid) if c.get("kind") == "steps"] + steps, 300 if quick else 1500)
+        return cases + steps
+
+    # ---- step-ordered scenarios run in pristine processes (pool of c05_worker) ---------------------------------
+    def prefetch_steps(self, cases, timeout):
+        from .c05 import run_jobs
+        todo = list({case_key(c): c for c in cases if case_key(c) not in self._cache}.values())
+        jobs = [{"id": case_key(c), "threads": c["threads"], "order": c["order"]} for c in todo]
+        alone: Dict[str, Any] = {}
+        for c in todo:
+            for t in c["threads"]:
+                k = json.dumps(t)
+                if k not in self._alone:
+                    alone[k] = t
+        res = run_jobs(jobs + [{"id": "alone:" + k, "ops": v} for k, v in alone.items()], timeout)
+        for k in alone:
+            d = res["alone:" + k]
+            self._alone[k] = d.get("obs") or [["HARNESS-CRASH", "HARNESS-CRASH " + str(d.get("crash"))]]
+        for c in todo:
+            d = res[case_key(c)]
+            tobs = d.get("tobs")
+            if tobs is None:
+                out = "HARNESS-CRASH " + str(d.get("crash"))
+                tobs = []
+            else:
+                out = " ; ".join(f"t{i}:" + "|".join(o[0] for o in obs) for i, obs in enumerate(tobs))
+            self._cache[case_key(c)] = {"out": out, "tobs": tobs}
 
     # ---- implementation ---------------------------------------------------------------------------
     def impl(self, c):
         k = case_key(c)
         if k in self._cache:
+            return self._cache[k]["out"]
+        if c["kind"] == "steps":
+            self.prefetch_steps([c], 300)
             return self._cache[k]["out"]
         ths = c["threads"]
         info: Dict[str, Any] = {"solo": [solo(t) for t in ths]}
@@ -591,7 +723,7 @@ class C16(Prop):
 
     def model_line(self, c):
         if c["kind"] not in ("gate", "explore"):
-            return None
+            return None          # stress and step-ordered scenarios: oracle only
         parts = []
         for th in c["threads"]:
             t = self.thread_tokens(th)
@@ -626,6 +758,21 @@ class C16(Prop):
         if info is None:
             return None
         ths = c["threads"]
+        if c["kind"] == "steps":
+            if out.startswith("HARNESS-CRASH"):
+                return "the scenario crashed the worker: " + out
+            from .c05_worker import expr_text
+            for t, (ops, obs) in enumerate(zip(ths, info["tobs"])):
+                al = self._alone.get(json.dumps(ops))
+                if al is None:
+                    continue
+                for i, (o, a) in enumerate(zip(obs, al)):
+                    if o[1] != a[1]:
+                        what = {"E": "Environment(...)", "P": "compile", "G": "program", "V": "evaluate"}.get(ops[i][0], ops[i][0])
+                        src = next((expr_text(x[2]) for x in ops if x[0] == "P" and x[2] is not None), "?")
+                        return (f"thread {t} ({ops[0][1]} runner, `{src}`): step #{i} {what} {json.dumps(ops[i])[:160]} gave {o[1]!r} with the "
+                                f"steps of the threads ordered {c['order']} but {a[1]!r} when the thread runs alone in a fresh process")
+            return None
         if c["kind"] == "stress":
             if info.get("bad"):
                 i, o, e = info["bad"][0]
@@ -647,6 +794,8 @@ class C16(Prop):
         return None
 
     def nontrivial(self, c, out):
+        if c["kind"] == "steps":
+            return len(set(c["order"])) > 1 and c["order"] != sorted(c["order"])
         for th in c["threads"]:
             if th["runner"] == "C":
                 try:
